@@ -4,7 +4,8 @@
    that the implementation does not raise is decided per case by the correspondence check).
    Reading: an inferred type is read TIGHTLY on input (Any only stands for "nothing was seen": List[Any] admits only
    the empty list), and as an annotation on output (Any admits everything). *)
-From MT Require Import Types TypesFacts Rewrite Hier RewriteHier RewriteMono Constants.
+From MT Require Import Types TypesFacts Infer Rewrite Hier RewriteHier RewriteMono Constants.
+From MT Require Import RewriteTrigger RewriteTriggerFacts RewriteTriggerExact RewriteTriggerInfer.
 
 (* The model of DEFAULT_REWRITER is the one the source declares today (Gen/Constants.v is
    regenerated from monkeytype/typing.py on every run): every member is a modelled rewriter. *)
@@ -67,6 +68,47 @@ Theorem subclass_transitive :
   forall h c a b, wf_hier h = true -> subclass h c a = true -> subclass h a b = true -> subclass h c b = true.
 Proof. exact RewriteHier.subclass_trans. Qed.
 Print Assumptions subclass_transitive.
+
+(* ---- a rewriter leaves a type unchanged unless its documented trigger is present ----
+   `trigger r t`: the documented trigger occurs somewhere in t (an empty container next to a non-empty one of the same
+   kind / more members than the maximum / all members dicts with one key type / all members classes); `fires r t`:
+   it occurs at a position the rewriter actually visits.  `normal t`: every union is one Python's typing could have
+   built (>= 2 members, flat, duplicate-free) -- inference and rewriting only produce such types. *)
+Theorem rw_unchanged_without_trigger :
+  forall h bt r t, normal t = true -> trigger r t = false -> rw h bt r t = t.
+Proof. exact rw_trigger_id. Qed.
+Print Assumptions rw_unchanged_without_trigger.
+
+Theorem rw_unchanged_unless_fires :
+  forall h bt r t, normal t = true -> fires r t = false -> rw h bt r t = t.
+Proof. exact rw_fires_id. Qed.
+Print Assumptions rw_unchanged_unless_fires.
+
+Theorem fires_implies_trigger : forall r t, fires r t = true -> trigger r t = true.
+Proof. exact fires_trigger. Qed.
+Print Assumptions fires_implies_trigger.
+
+(* for the rewriters of the default chain the trigger is exactly the condition for a change *)
+Theorem rw_changes_exactly_when_fires :
+  forall h bt r t, r <> RCommonBase -> normal t = true -> (rw h bt r t <> t <-> fires r t = true).
+Proof. exact rw_changes_iff_fires. Qed.
+Print Assumptions rw_changes_exactly_when_fires.
+
+(* a union is collapsed only when it has more members than the configured maximum *)
+Theorem large_union_only_above_max :
+  forall h n ts, here_rlu n ts = false -> rlu_union h n ts = TUnion ts.
+Proof. intros h n ts. exact (proj1 (rlu_union_local h n ts)). Qed.
+Print Assumptions large_union_only_above_max.
+
+(* inference produces normal types, and rewriting keeps them normal: the theorems above apply at every stage *)
+Theorem infer_produces_normal :
+  forall k vs t, forallb wf_valueb vs = true -> infer k vs = Some t -> normal t = true.
+Proof. exact infer_normal. Qed.
+Print Assumptions infer_produces_normal.
+
+Theorem rw_keeps_normal : forall h bt r t, normal t = true -> normal (rw h bt r t) = true.
+Proof. exact rw_normal. Qed.
+Print Assumptions rw_keeps_normal.
 
 Example ex_c07_nonvacuous :
   wf_hier ex_h = true /\ bt_ok ex_h ex_bt = true /\ wf_ty ex_t
